@@ -275,13 +275,16 @@ Definition compile_mini_g (e : eprog) : otfont :=
 
 End Inline.
 
-(* the compiler after the repairs of 2026-09, and as it was before them *)
+(* the compiler with all three inline-rule repairs of 2026-09, and as it was before them *)
 Definition compile_mini : eprog -> otfont := compile_mini_g true true true.
 Definition compile_mini_unrepaired : eprog -> otfont := compile_mini_g false false false.
+(* the compiler in /repo: the inline single and inline multiple repairs are applied, the inline ligature
+   repair is not (it departs from feaLib's lookup list; its key is a known finding) *)
+Definition compile_repo : eprog -> otfont := compile_mini_g true true false.
 
 (* ---- whole pipeline from the AST ------------------------------------------------------------ *)
 Definition compile_prog (incl : bool) (gm : list str) (p : prog) : option otfont :=
-  option_map compile_mini (elab incl gm p).
+  option_map compile_repo (elab incl gm p).
 
 Definition interp_prog (incl : bool) (gm : list str) (p : prog) (sel : selection) (s : list glyph)
   : option (list pitem) :=
